@@ -927,13 +927,24 @@ fn exec_case(case: &Case) -> Outcome {
                 handles.push(cthread::spawn(move || {
                     trace::note(&format!("thread {i} handle {} h{}", h.hid, h.trace_handle()));
                     wait(&b);
-                    let mut rs: Vec<Res> = reqs.iter().map(|&n| request(&h, n)).collect();
+                    let mut rs: Vec<Res> = reqs
+                        .iter()
+                        .enumerate()
+                        .map(|(k, &n)| {
+                            if is_victim {
+                                h.st.victim_req.store(k, Ordering::SeqCst);
+                            }
+                            request(&h, n)
+                        })
+                        .collect();
                     if is_victim {
                         while !done.load(Ordering::SeqCst) {
                             std::thread::yield_now();
                         }
                         let last = *reqs.last().unwrap();
+                        h.st.victim_req.store(reqs.len(), Ordering::SeqCst);
                         rs.push(request(&h, last));
+                        h.st.victim_req.store(reqs.len() + 1, Ordering::SeqCst);
                         rs.push(request(&h, last));
                     }
                     let unwound = h.unwound_cycle_frame.load(Ordering::Relaxed);
@@ -964,6 +975,23 @@ fn exec_case(case: &Case) -> Outcome {
                 }
                 if locals > 1 {
                     out.fail("oracle", format!("victim unwound {locals} times for one cancel()"));
+                }
+                // a cancel() made from inside the victim's own k-th request belongs to that request:
+                // the token is reset when its outermost tracked call returns or unwinds, so no LATER
+                // request of the handle may unwind with Cancelled::Local
+                let fired_at = db.st.cancel_fired_req.load(Ordering::SeqCst);
+                if i == *victim && fired_at != usize::MAX {
+                    for (k, res) in rs.iter().enumerate() {
+                        if k > fired_at && matches!(res, Res::Local) {
+                            out.fail(
+                                "oracle",
+                                format!("cancel() was called inside the victim's request #{fired_at} but its later request #{k} unwound with Cancelled::Local (token not reset when the outermost call ended)"),
+                            );
+                        }
+                    }
+                    if !matches!(rs[fired_at], Res::Local) {
+                        out.note("self_cancel_too_late_or_deferred");
+                    }
                 }
                 if locals > 0 {
                     out.note("local_unwinds");
